@@ -187,7 +187,15 @@ func errUnsupportedKey(key string) error {
 // keys) or because one of its parent directories is an object.
 func keyPathConflict(fs afero.Fs, root, objectPath string) bool {
 	if stat, err := fs.Stat(filepath.FromSlash(objectPath)); err == nil && stat.IsDir() {
-		return true
+		if holdsObject(fs, filepath.FromSlash(objectPath)) {
+			return true
+		}
+		// A directory without a file below it is the prefix of no key, only
+		// what a process killed half way through a PUT or DELETE left behind
+		// (see holdsObject): it must not refuse the key its name for good.
+		if err := removeAll(fs, filepath.FromSlash(objectPath)); err != nil {
+			return true
+		}
 	}
 	for dir := pathDir(objectPath); dir != root && dir != "." && dir != "/" && dir != ""; dir = pathDir(dir) {
 		if stat, err := fs.Stat(filepath.FromSlash(dir)); err == nil && !stat.IsDir() {
